@@ -1,4 +1,6 @@
 import SluProofs.Lemmas.LUInv
+import SluProofs.Lemmas.Transversal
+import SluProofs.Props.C02
 /-
 C04 — Exact singularity is reported, never silently solved.
 
@@ -7,6 +9,18 @@ pivot candidates are all exactly zero (or absent); the columns before it form a 
 (the full invariant of C02 holds for them); success implies a nonzero diagonal of U — both for
 every threshold `0 ≤ u ≤ 1`, including `u = 0` (any nonzero diagonal accepted); and the
 driver glue returns the right-hand side untouched without solving.
+
+STRUCTURAL SINGULARITY (square case) is a theorem about the model, no longer tied by generated
+Hall-violation inputs only: `luFactor_success_has_transversal` — `info = 0` implies that some
+permutation `σ` of the rows has `A(σ j, j) ≠ 0` in every column (`A = Prᵀ L U` with unit lower `L` and
+nonzero diagonal of `U`, so `det A ≠ 0`, and a nonzero determinant has a nonzero Leibniz term;
+Lemmas/Transversal.lean) — hence `structurally_singular_is_reported` / `structurally_singular_info`:
+a matrix whose sparsity pattern has no transversal (`StructSingular`; in particular every Hall
+violation, `structSingular_of_hall*`, `hall_violation_is_reported`: k columns whose entries lie in
+fewer than k rows) returns `info = j+1` for a column `j < n`, whatever the values, the threshold in
+[0, 1], the candidate order, the diagonal rows and the reuse state.  Over any field with `MagLaws`
+(instances `Rat`, `Cx Rat`).  What stays tied by correspondence (family `lu`, classes with Hall
+violations, empty and duplicate columns) is that the imperative code returns the model's `info`.
 -/
 namespace Slu.LU
 open Slu
@@ -114,11 +128,177 @@ theorem gssv_singular_B_untouched (P : Params K Rat) (permC : Array Nat) (B : Li
   · simp [hz]
   · simp [hz] at h
 
+/-! ### Structural singularity -/
+
+/-- **C04 (success needs a transversal).** Square case.  If the factorization succeeds there is a
+permutation `σ` of the rows with `A(σ j, j) ≠ 0` for every column `j` — the nonzero pattern of the
+matrix has a perfect matching.  (`A = Prᵀ L U`, `det A = ± ∏ U_jj ≠ 0`, Leibniz expansion:
+Lemmas/Transversal.lean.)  Every threshold `0 ≤ u ≤ 1`, candidate order, reuse state. -/
+theorem luFactor_success_has_transversal (laws : MagLaws K) (P : Params K Rat) (hu0 : 0 ≤ P.u) (hu1 : P.u ≤ 1)
+    (hcol : ∀ j, (P.col j).size = P.m) (hsq : P.m = P.n) (b : Bool) (h : (luFactor P b).info = 0) :
+    ∃ σ : Equiv.Perm (Fin P.n), ∀ j : Fin P.n, (P.col j).get (σ j) ≠ 0 := by
+  rw [luFactor_eq_run] at h
+  exact inv_transversal P _ hsq (run_inv laws P hu0 hu1 hcol b P.n h)
+
+/-- the same under the hypothesis bundle of C02 -/
+theorem luFactor_success_has_transversal_legal (laws : MagLaws K) (P : Params K Rat) (hP : Legal P)
+    (hsq : P.m = P.n) (b : Bool) (h : (luFactor P b).info = 0) :
+    ∃ σ : Equiv.Perm (Fin P.n), ∀ j : Fin P.n, (P.col j).get (σ j) ≠ 0 :=
+  luFactor_success_has_transversal laws P (le_of_lt hP.u_pos) hP.u_le_one hP.col_size hsq b h
+
+/-- `pat j` lists the rows where column `j` MAY be nonzero (the sparsity pattern; explicit zeros are
+allowed).  The pattern is structurally singular when it has no transversal: no permutation `σ` of
+`0..n-1` with `σ j ∈ pat j` for every column `j` — so every matrix with that pattern is singular. -/
+def StructSingular (n : Nat) (pat : Nat → List Nat) : Prop :=
+  ¬ ∃ σ : Equiv.Perm (Fin n), ∀ j : Fin n, (σ j : Nat) ∈ pat j
+
+/-- **Hall violation ⟹ structurally singular.** `S`: a set of columns, `T`: a set of rows containing
+the pattern of every column of `S`; `|T| < |S|`. -/
+theorem structSingular_of_hall (n : Nat) (pat : Nat → List Nat) (S T : Finset Nat)
+    (hS : ∀ j ∈ S, j < n) (hT : ∀ j ∈ S, ∀ i ∈ pat j, i ∈ T) (hcard : T.card < S.card) :
+    StructSingular n pat :=
+  no_transversal_of_hall n (fun j i => i ∈ pat j) S T hS hT hcard
+
+/-- the same with `T` the union of the patterns: `|⋃_{j ∈ S} pat j| < |S|` -/
+theorem structSingular_of_hall_union (n : Nat) (pat : Nat → List Nat) (S : Finset Nat)
+    (hS : ∀ j ∈ S, j < n) (hcard : (S.biUnion fun j => (pat j).toFinset).card < S.card) :
+    StructSingular n pat :=
+  structSingular_of_hall n pat S _ hS
+    (fun j hj _ hi => Finset.mem_biUnion.mpr ⟨j, hj, List.mem_toFinset.mpr hi⟩) hcard
+
+/-- list form: `k` distinct columns `cols` whose patterns lie in a list `rows` of fewer than `k` rows -/
+theorem structSingular_of_hall_list (n : Nat) (pat : Nat → List Nat) (cols rows : List Nat)
+    (hnd : cols.Nodup) (hS : ∀ j ∈ cols, j < n) (hT : ∀ j ∈ cols, ∀ i ∈ pat j, i ∈ rows)
+    (hlen : rows.length < cols.length) : StructSingular n pat :=
+  structSingular_of_hall n pat cols.toFinset rows.toFinset
+    (fun j hj => hS j (List.mem_toFinset.mp hj))
+    (fun j hj i hi => List.mem_toFinset.mpr (hT j (List.mem_toFinset.mp hj) i hi))
+    (by rw [List.toFinset_card_of_nodup hnd]; exact lt_of_le_of_lt (List.toFinset_card_le rows) hlen)
+
+/-- **C04 (every structurally singular matrix is reported).** Square case.  If the pattern `pat` has
+no transversal and the values respect it (`A(i,j) ≠ 0 → i ∈ pat j`), the factorization returns
+`info ≠ 0` — for every choice of values, every threshold `0 ≤ u ≤ 1`, every candidate order, every
+remembered pivot sequence and reuse state `b`, every choice of diagonal rows. -/
+theorem structurally_singular_is_reported (laws : MagLaws K) (P : Params K Rat) (hu0 : 0 ≤ P.u) (hu1 : P.u ≤ 1)
+    (hcol : ∀ j, (P.col j).size = P.m) (hsq : P.m = P.n) (pat : Nat → List Nat)
+    (hpat : ∀ j < P.n, ∀ i < P.n, (P.col j).get i ≠ 0 → i ∈ pat j)
+    (hs : StructSingular P.n pat) (b : Bool) : (luFactor P b).info ≠ 0 := by
+  intro h
+  obtain ⟨σ, hσ⟩ := luFactor_success_has_transversal laws P hu0 hu1 hcol hsq b h
+  exact hs ⟨σ, fun j => hpat j j.2 (σ j) (σ j).2 (hσ j)⟩
+
+/-- **C04 (what is reported).** Then `info = j+1` for a column `j < n`: the first `j` columns were
+factored without a zero pivot and every pivot candidate of column `j` is exactly zero. -/
+theorem structurally_singular_info (laws : MagLaws K) (P : Params K Rat) (hu0 : 0 ≤ P.u) (hu1 : P.u ≤ 1)
+    (hcol : ∀ j, (P.col j).size = P.m) (hsq : P.m = P.n) (pat : Nat → List Nat)
+    (hpat : ∀ j < P.n, ∀ i < P.n, (P.col j).get i ≠ 0 → i ∈ pat j)
+    (hs : StructSingular P.n pat) (b : Bool) :
+    ∃ j < P.n, (luFactor P b).info = j + 1 ∧ (run P b j).info = 0 ∧
+      ∀ c ∈ stepCands P (run P b j) j, (Mag.abs1 c.2 : Rat) = 0 := by
+  rcases luFactor_info_range laws P b with h0 | ⟨j, hj, h1, _, _⟩
+  · exact absurd h0 (structurally_singular_is_reported laws P hu0 hu1 hcol hsq pat hpat hs b)
+  · obtain ⟨h2, h3⟩ := (luFactor_info_iff laws P b j hj).mp h1
+    exact ⟨j, hj, h1, h2, h3⟩
+
+/-- **C04 (Hall violation is reported).** `k` distinct columns whose nonzeros lie in fewer than `k`
+rows: `info = j+1 > 0` for some column `j`. -/
+theorem hall_violation_is_reported (laws : MagLaws K) (P : Params K Rat) (hu0 : 0 ≤ P.u) (hu1 : P.u ≤ 1)
+    (hcol : ∀ j, (P.col j).size = P.m) (hsq : P.m = P.n) (cols rows : List Nat)
+    (hnd : cols.Nodup) (hS : ∀ j ∈ cols, j < P.n)
+    (hT : ∀ j ∈ cols, ∀ i < P.n, (P.col j).get i ≠ 0 → i ∈ rows)
+    (hlen : rows.length < cols.length) (b : Bool) :
+    ∃ j < P.n, (luFactor P b).info = j + 1 := by
+  classical
+  -- the numeric pattern itself
+  let pat : Nat → List Nat := fun j => (List.range P.n).filter fun i => decide ((P.col j).get i ≠ 0)
+  have hpat : ∀ j < P.n, ∀ i < P.n, (P.col j).get i ≠ 0 → i ∈ pat j := by
+    intro j _ i hi hne
+    simp only [pat, List.mem_filter, List.mem_range, decide_eq_true_eq]
+    exact ⟨hi, hne⟩
+  have hs : StructSingular P.n pat := by
+    apply structSingular_of_hall_list P.n pat cols rows hnd hS _ hlen
+    intro j hj i hi
+    simp only [pat, List.mem_filter, List.mem_range, decide_eq_true_eq] at hi
+    exact hT j hj i hi.1 hi.2
+  obtain ⟨j, hj, h1, _⟩ := structurally_singular_info laws P hu0 hu1 hcol hsq pat hpat hs b
+  exact ⟨j, hj, h1⟩
+
 /-! non-vacuity: a matrix with two equal columns is reported at column 1 (info = 2), the first
 column having been factored -/
 def exSing : Params Rat Rat :=
   { m := 2, n := 2, col := fun _ => #[1, 2], u := 1, order := fun _ => [0, 1],
     oldPiv := fun _ => 0, diagRow := fun j => j }
 example : (luFactor exSing false).info = 2 := by decide +kernel
+
+/-! non-vacuity of the structural clauses.  A 3x3 matrix with a Hall violation (harness class
+"hall"): columns 0 and 1 have their only entry in row 0, so two columns live in one row.  The model
+reports column 1 (`info = 2`), and the theorems apply to it. -/
+def exHallCols : Nat → Vec Rat
+  | 0 => #[1, 0, 0]
+  | 1 => #[2, 0, 0]
+  | _ => #[1, 1, 1]
+
+def exHall : Params Rat Rat :=
+  { m := 3, n := 3, col := exHallCols, u := 1, order := fun _ => [0, 1, 2], oldPiv := fun _ => 0, diagRow := fun j => j }
+
+def exHallPat : Nat → List Nat
+  | 0 => [0]
+  | 1 => [0]
+  | _ => [0, 1, 2]
+
+theorem exHall_col_size (j : Nat) : (exHall.col j).size = exHall.m := by
+  match j with | 0 => rfl | 1 => rfl | (_ + 2) => rfl
+
+theorem exHall_respects : ∀ j < exHall.n, ∀ i < exHall.n, (exHall.col j).get i ≠ 0 → i ∈ exHallPat j := by
+  decide +kernel
+
+/-- columns {0, 1} ⊆ rows {0}: a Hall violation -/
+theorem exHall_structSingular : StructSingular 3 exHallPat :=
+  structSingular_of_hall_list 3 exHallPat [0, 1] [0] (by decide) (by decide) (by decide) (by decide)
+
+example : (luFactor exHall false).info = 2 := by decide +kernel
+example : (luFactor exHall false).info ≠ 0 :=
+  structurally_singular_is_reported magLaws_rat exHall (by decide) (by decide) exHall_col_size rfl
+    exHallPat exHall_respects exHall_structSingular false
+/-- whatever the threshold (here `u = 0`: any nonzero pivot accepted), the candidate order and the reuse state -/
+def exHall' : Params Rat Rat :=
+  { exHall with u := 0, order := fun _ => [2, 1, 0], oldPiv := fun j => 2 - j }
+example : (luFactor exHall' true).info ≠ 0 :=
+  structurally_singular_is_reported magLaws_rat exHall' (by decide) (by decide) exHall_col_size rfl
+    exHallPat exHall_respects exHall_structSingular true
+example : (luFactor exHall' true).info = 2 := by decide +kernel
+example : ∃ j < 3, (luFactor exHall false).info = j + 1 :=
+  hall_violation_is_reported magLaws_rat exHall (by decide) (by decide) exHall_col_size rfl [0, 1] [0]
+    (by decide) (by decide) (by decide +kernel) (by decide) false
+/-- the same pattern over the Gaussian rationals -/
+example (P : Params (Cx Rat) Rat) (hu0 : 0 ≤ P.u) (hu1 : P.u ≤ 1) (hcol : ∀ j, (P.col j).size = P.m)
+    (hm : P.m = 3) (hn : P.n = 3)
+    (hpat : ∀ j < P.n, ∀ i < P.n, (P.col j).get i ≠ 0 → i ∈ exHallPat j) (b : Bool) :
+    (luFactor P b).info ≠ 0 :=
+  structurally_singular_is_reported magLaws_cx P hu0 hu1 hcol (by omega) exHallPat hpat
+    (hn ▸ exHall_structSingular) b
+
+/-! a nonsingular 3x3 matrix whose diagonal is NOT a transversal (`A(0,0) = 0`, row 0 has its only
+entry in column 1): the factorization succeeds, the theorem yields a transversal, and one is
+exhibited (rows 1, 0, 2 for columns 0, 1, 2: entries 2, 1, 5) -/
+def exNSCols : Nat → Vec Rat
+  | 0 => #[0, 2, 1]
+  | 1 => #[1, 0, 3]
+  | _ => #[0, 1, 5]
+
+def exNS : Params Rat Rat :=
+  { m := 3, n := 3, col := exNSCols, u := 1, order := fun _ => [0, 1, 2], oldPiv := fun _ => 0, diagRow := fun j => j }
+
+theorem exNS_col_size (j : Nat) : (exNS.col j).size = exNS.m := by
+  match j with | 0 => rfl | 1 => rfl | (_ + 2) => rfl
+
+theorem exNS_info : (luFactor exNS false).info = 0 := by decide +kernel
+/-- the pivot sequence itself (rows 1, 2, 0) is not the transversal: `A(0, 2) = 0` -/
+example : (luFactor exNS false).piv = #[1, 2, 0] ∧ (exNS.col 2).get 0 = 0 := by decide +kernel
+example : ∃ σ : Equiv.Perm (Fin 3), ∀ j : Fin 3, (exNS.col j).get (σ j) ≠ 0 :=
+  luFactor_success_has_transversal magLaws_rat exNS (by decide) (by decide) exNS_col_size rfl false exNS_info
+example : ∀ j : Fin 3, (exNS.col j).get ((Equiv.swap (0 : Fin 3) 1) j) ≠ 0 := by decide +kernel
+/-- the identity is not a transversal of this matrix -/
+example : ¬ ∀ j : Fin 3, (exNS.col j).get ((Equiv.refl (Fin 3)) j) ≠ 0 := by decide +kernel
 
 end Slu.LU
